@@ -109,6 +109,7 @@ func c18Plain(r *world.Rng, tier string) *C18Sc {
 	s := c18GenOne(r, tier, 0)
 	s.WriteFail, s.Events, s.CancelAt, s.BPAfter, s.TightStack, s.PreWriter = nil, nil, nil, false, "", ""
 	s.Defaults = false // (process-wide streams: not for machines that run side by side)
+	s.Rotate = 0       // (only the single run under the real-time clock can report a machine that blocks for ever)
 	if s.BadFnFinal {
 		s.BadFnFinal = false
 		s.Items = s.Items[:len(s.Items)-1]
